@@ -140,6 +140,19 @@ def run(prop, tier, seed, repo):
                 if isinstance(v, dict) and "tid" in v:
                     verdicts[v["tid"]] = v
         t3 = time.time()
+        # the search as an algorithm (module DFS): the current one is exact on every graph
+        # with 3 states, the pre-fix one is a counter-model
+        r1 = tlc.run("DFS", cfg="MC_DFS", workers=8, gc="parallel", heap="6g", timeout=3600)
+        if not r1.ok:
+            res.add_violation("MC_DFS: " + "; ".join(r1.errors)[:300],
+                              {"kind": "mc", "property": "C07", "cfg": "MC_DFS", "output": r1.out[-3000:]})
+        res.coverage["states"] += r1.distinct
+        res.coverage["transitions"] += r1.generated
+        res.notes["MC_DFS.distinct_states"] = r1.distinct
+        r2 = tlc.run("DFS", cfg="MC_DFS_Old", workers=8, gc="parallel", heap="6g", timeout=3600)
+        if not any("ExactOnce is violated" in e for e in r2.errors):
+            raise common.MachineryError("MC_DFS_Old no longer yields its counterexample (vacuity)")
+        res.notes["MC_DFS_Old.counterexample_found"] = True
         nontrivial = set()
         for s in sessions:
             v = verdicts.get(s["tid"])
